@@ -458,7 +458,7 @@ def run(ctx, replay=None):
     if replay:
         return run_replay(ctx, replay)
     t0 = time.time()
-    n_state = 130 if ctx.quick else 1500
+    n_state = 130 if ctx.quick else 700
     state_cases = {L: [dict(c, limit=L) for c in STATE_CORPUS if c["limit"] == L] for L in LIMITS}
     for L in LIMITS:
         state_cases[L] += [gen_state_case(ctx.rng, L) for _ in range(n_state)]
@@ -521,7 +521,7 @@ def eval_model(state_cases):
         for i, c in enumerate(state_cases[L]):
             exprs.append(coq_state_case(c))
             index.append((L, i))
-    vals = C.coq_eval_sharded("C04", HEADER, exprs, shard=120, jobs=6)
+    vals = C.coq_eval_sharded("C04", HEADER, exprs, shard=120, jobs=8)
     out = {L: [None] * len(state_cases[L]) for L in LIMITS}
     for (L, i), v in zip(index, vals):
         out[L][i] = v
@@ -534,7 +534,7 @@ def model_obs(v):
 
 
 def check_state(ctx, state_cases, model, state_res, deaths):
-    n_cmp, n_ops, bad_corr, n_fault = 0, 0, [], 0
+    n_cmp, n_ops, bad_corr, n_fault, failures = 0, 0, [], 0, []
     dead = {(tag, i): info for (tag, i, info) in deaths}
     for L in LIMITS:
         tag = "L%d" % L
@@ -561,9 +561,7 @@ def check_state(ctx, state_cases, model, state_res, deaths):
             if not r.get("wellformed", True):
                 problems.append("the four data arrays differ in length or a value is not integral")
             if problems:
-                ctx.report("accumulator loses/duplicates/mis-credits events at COO_QUICKSORT_LIMIT=%d, capacity %d: %s"
-                           % (L, c["cap"], "; ".join(problems)),
-                           {"stage": "state", "case": c, "actual_final": r["final"]}, found_input=True)
+                failures.append((len(c["ops"]), L, c, problems, r["final"]))
                 continue
             if m_fault is not None:
                 n_fault += 1
@@ -580,6 +578,11 @@ def check_state(ctx, state_cases, model, state_res, deaths):
             else:
                 if m_final != r["final"]:
                     bad_corr.append((c, "final live entries differ: model %s implementation %s" % (m_final[:8], r["final"][:8])))
+    failures.sort(key=lambda f: f[0])          # the shortest failing op sequences first
+    for (_, L, c, problems, final) in failures:
+        ctx.report("accumulator loses/duplicates/mis-credits events at COO_QUICKSORT_LIMIT=%d, capacity %d, %d ops: %s"
+                   % (L, c["cap"], len(c["ops"]), "; ".join(problems)),
+                   {"stage": "state", "case": c, "actual_final": final}, found_input=True)
     ctx.coverage["correspondence"] = {"model": "Model/K01_CooAcc.v via vm_compute", "cases": n_cmp, "ops_compared": n_ops,
                                       "disagreements": len(bad_corr), "limits": LIMITS}
     ctx.coverage["traces_validated_against_impl"] = n_cmp
